@@ -1,0 +1,57 @@
+//go:build verif
+
+package limiters
+
+// Accessors for the verification harness (/verif, property C11). Nothing here
+// changes behaviour; the file does not exist for the compiler without the
+// build tag "verif".
+
+// VerifInUse reports the permits in use (length of the channel) and the
+// capacity of the semaphore.
+func (s Semaphore) VerifInUse() (inUse, capacity int) { return len(s.c), cap(s.c) }
+
+// VerifSems walks a limiter and returns {permits in use, capacity} of every
+// Semaphore it is built from, in locking order. Rate limiters and no-op
+// limiters contribute nothing.
+func VerifSems(l L) [][2]int {
+	var out [][2]int
+	switch v := l.(type) {
+	case Semaphore:
+		if cap(v.c) > 0 {
+			out = append(out, [2]int{len(v.c), cap(v.c)})
+		}
+	case *MultiLimit:
+		if v != nil {
+			for _, w := range v.Wrapped {
+				out = append(out, VerifSems(w)...)
+			}
+		}
+	}
+	return out
+}
+
+// VerifLen is the number of buckets currently in the table.
+func (r *BucketSet) VerifLen() int {
+	r.mLck.Lock()
+	defer r.mLck.Unlock()
+	return len(r.m)
+}
+
+// VerifBuckets returns, for each of the given keys that has a bucket, the
+// semaphores of that bucket (see VerifSems). The result has an entry (possibly
+// empty) exactly for the keys present in the table.
+func (r *BucketSet) VerifBuckets(keys []string) map[string][][2]int {
+	r.mLck.Lock()
+	defer r.mLck.Unlock()
+	out := map[string][][2]int{}
+	for _, k := range keys {
+		if b, ok := r.m[k]; ok {
+			s := VerifSems(b.r)
+			if s == nil {
+				s = [][2]int{}
+			}
+			out[k] = s
+		}
+	}
+	return out
+}
